@@ -224,6 +224,13 @@ func checkVerify(s *scenario, blocksPresent int) (VerifyResult, error) {
 // checkRepair runs the real repair and asserts C02's write discipline and
 // "nil error means exact restoration".
 func checkRepair(s *scenario, doubleCheck bool, goroutines int) (RepairResult, error) {
+	return checkRepairMode(s, doubleCheck, goroutines, true)
+}
+
+// consistent=false is for deliberately inconsistent archives (C19): a file may
+// then be rewritten with its own bytes, and "protected" is whatever the archive
+// says it is, so only the write discipline is asserted.
+func checkRepairMode(s *scenario, doubleCheck bool, goroutines int, consistent bool) (RepairResult, error) {
 	before := map[string][]byte{}
 	for _, p := range s.fs.order {
 		before[p] = s.fs.files[p]
@@ -245,7 +252,9 @@ func checkRepair(s *scenario, doubleCheck bool, goroutines int) (RepairResult, e
 		rt.Assert(idx >= 0, "Repair writes only protected files")
 		if idx >= 0 {
 			rt.Assert(bytesEqual(w.data, s.orig[idx]), "every file Repair writes has exactly the protected bytes")
-			rt.Assert(!wasIntact[idx], "Repair does not rewrite a file that was intact")
+			if consistent {
+				rt.Assert(!wasIntact[idx], "Repair does not rewrite a file that was intact")
+			}
 			listed := false
 			for _, rp := range res.RepairedPaths {
 				if rp == w.path {
@@ -268,7 +277,7 @@ func checkRepair(s *scenario, doubleCheck bool, goroutines int) (RepairResult, e
 			rt.Assert(ok && bytesEqual(cur, d), "recovery files and bystanders are unchanged by Repair")
 		}
 	}
-	if err == nil {
+	if err == nil && consistent {
 		rt.Assert(allIntact(s), "Repair returned nil: every protected file is byte-identical to its original")
 	}
 	return res, err
